@@ -76,6 +76,9 @@ type pgen struct {
 	budget int
 	wrap   bool // the paragraph's white-space value allows soft wraps
 	ws     string
+	// forceVA: the spans of the level being generated are children of a top/bottom aligned inline box
+	// and are top/bottom aligned themselves (see notes: D22)
+	forceVA bool
 }
 
 // features of the generated paragraph (drawn per paragraph so that simple paragraphs stay common)
@@ -94,6 +97,9 @@ type features struct {
 	// Pieces: some words are made of several inline pieces glued together (text, one-word inline
 	// boxes, possibly adjacent or nested): b<b>o</b>ld, H<sub>2</sub>O, un<em>believ</em><i>a</i>ble
 	Pieces bool
+	// VAlign: inline boxes and inline-blocks draw vertical-align: top / bottom (one time in two), also
+	// nested inside one another
+	VAlign bool
 }
 
 func (g *pgen) word() string { return g.wordH(true) }
@@ -147,6 +153,9 @@ func (g *pgen) spanNode(depth int) Node {
 	}
 	if g.feat.FontSize && g.r.Intn(2) == 0 {
 		n.FS = pick(g.r, 8, 10, 16, 20, 12, 24)
+	}
+	if g.feat.VAlign && (g.forceVA || g.r.Intn(2) == 0) {
+		n.VA = pick(g.r, "top", "bottom", "top")
 	}
 	return n
 }
@@ -257,7 +266,10 @@ func (g *pgen) seq(depth int, want int) {
 					g.toks = append(g.toks, tok{k: 'w', s: g.word()})
 				}
 			default:
+				save := g.forceVA
+				g.forceVA = n.VA != "" && !lifted("D22")
 				g.seq(depth+1, 1+g.r.Intn(4))
+				g.forceVA = save
 			}
 			// finding D7: the end spacing of an inline box is lost when the box's content ends with
 			// a collapsible space at which the line breaks; no space just inside such an end edge
@@ -272,10 +284,13 @@ func (g *pgen) seq(depth int, want int) {
 		case g.feat.Pieces && depth < 3 && g.r.Intn(3) == 0:
 			g.pieceWord(depth)
 			produced++
-		case g.feat.IB && g.r.Intn(8) == 0:
+		case g.feat.IB && (g.r.Intn(8) == 0 || g.feat.VAlign && g.r.Intn(4) == 0):
 			ib := Node{K: KIB, W: pick(g.r, g.u, g.f, 2*g.f, 3*g.u), H: pick(g.r, 1, g.u, g.f, 2*g.f, 3*g.f)}
 			if g.r.Intn(4) == 0 {
 				ib.M = pick(g.r, 1, g.u)
+			}
+			if g.feat.VAlign && g.r.Intn(2) == 0 {
+				ib.VA = pick(g.r, "top", "bottom")
 			}
 			g.toks = append(g.toks, tok{k: 'a', node: ib})
 			produced++
@@ -547,6 +562,7 @@ func (f features) String() string {
 	add(f.Glue, "glue")
 	add(f.Leaf, "leaf")
 	add(f.Pieces, "pieces")
+	add(f.VAlign, "valign")
 	if len(s) == 0 {
 		return "plain"
 	}
